@@ -54,6 +54,10 @@ func isLeanIdent(s string) bool { return leanIdentRe.MatchString(s) }
 // ---------------------------------------------------------------- specialisation
 
 type spec struct {
+	top    string // fft mode (slpffttop.go): name suffix of a top-level target (FFT / FFTInverse / BitReverse)
+	coset  bool   // ... the option record: OnCoset given or not (nbTasks is always 1)
+	pre    bool   // ... domain.withPrecompute
+	card   int64  // ... domain.Cardinality
 	width  int
 	ints   map[int]int64
 	opaque map[int]bool
@@ -68,6 +72,9 @@ func newSpec() *spec {
 func (sp *spec) suffix(f *fn) string {
 	if sp == nil {
 		return ""
+	}
+	if sp.top != "" {
+		return sp.top
 	}
 	var parts []string
 	for i, q := range f.pos {
@@ -111,6 +118,9 @@ func (v *variant) primList() []string {
 // ---------------------------------------------------------------- declarations
 
 func (p *pkgCtx) scanConsts(d *ast.GenDecl) {
+	if p.cfg.ext == "fft" {
+		p.scanIota(d)
+	}
 	for _, sp := range d.Specs {
 		vs := sp.(*ast.ValueSpec)
 		for i, nm := range vs.Names {
@@ -207,6 +217,11 @@ func (x *tr) isRoundKeys(e ast.Expr) bool {
 }
 
 func (x *tr) evalInt(s *state, e ast.Expr) (int64, bool) {
+	if x.p.cfg.ext == "fft" {
+		if n, ok := x.topEvalInt(s, e); ok {
+			return n, true
+		}
+	}
 	switch e := e.(type) {
 	case *ast.BasicLit:
 		if n := litInt(e); n != nil && n.IsInt64() {
@@ -285,6 +300,10 @@ func (x *tr) evalInt(s *state, e ast.Expr) (int64, bool) {
 
 func (x *tr) staticCond(s *state, e ast.Expr) (bool, bool) {
 	switch e := e.(type) {
+	case *ast.SelectorExpr:
+		if b, ok := s.sbools[exprStr(e)]; ok && x.p.cfg.ext == "fft" {
+			return b, true
+		}
 	case *ast.ParenExpr:
 		return x.staticCond(s, e.X)
 	case *ast.Ident:
@@ -382,6 +401,9 @@ func (x *tr) extLoc(s *state, e ast.Expr) (loc, bool) {
 	case *ast.SelectorExpr:
 		// d.h for the specialisation receiver d: one element of state that the def takes as a parameter
 		if id, ok := e.X.(*ast.Ident); ok && id.Name == x.specRecvName() && id.Name != "" {
+			if x.p.cfg.ext == "fft" {
+				return x.topField(s, id.Name, e.Sel.Name), true
+			}
 			for _, fld := range x.p.cfg.specElem {
 				if fld == e.Sel.Name {
 					if _, ok := s.cells["spec:"+fld]; !ok {
@@ -764,6 +786,11 @@ const maxUnroll = 8192
 
 // extStmt: 0 = not handled, 1 = handled (go on with the next statement), 2 = handled together with the continuation
 func (x *tr) extStmt(s *state, st ast.Stmt, rest []ast.Stmt) int {
+	if x.p.cfg.ext == "fft" {
+		if r := x.topStmt(s, st, rest); r != 0 {
+			return r
+		}
+	}
 	switch st := st.(type) {
 	case *ast.DeclStmt:
 		gd, ok := st.Decl.(*ast.GenDecl)
